@@ -80,3 +80,46 @@ func zzH_C35_basefee() {
 	zzAssert(CalcBaseFee(pre, parent).Cmp(big.NewInt(params.InitialBaseFee)) == 0, "first London block starts at the initial base fee")
 	zzObserve("fee-lo", got.Uint64())
 }
+
+// Header verification around the fork block: accepted iff the gas limit is within bounds of the
+// (at the fork block: doubled) parent limit and the base fee is the expected one.
+func zzH_C35_header1559() {
+	london := uint64(zzNondetU32())
+	cfg := &params.ChainConfig{LondonBlock: new(big.Int).SetUint64(london)}
+	pnum := uint64(zzNondetU32())
+	pLimit, pUsed, hLimit := zzNondetU64(), zzNondetU64(), zzNondetU64()
+	zzAssume(pLimit >= params.MinGasLimit)
+	zzAssume(pLimit <= 1<<62)
+	zzAssume(hLimit <= 1<<62)
+	pBase, hBase := zzNondetBig(64), zzNondetBig(64)
+	parent := &types.Header{Number: new(big.Int).SetUint64(pnum), GasLimit: pLimit, GasUsed: pUsed, BaseFee: pBase}
+	header := &types.Header{Number: new(big.Int).SetUint64(pnum + 1), GasLimit: hLimit, BaseFee: hBase}
+	err := VerifyEIP1559Header(cfg, parent, header)
+
+	parentIsLondon := pnum >= london
+	ref := pLimit
+	if !parentIsLondon {
+		ref = pLimit * 2 // EIP-1559: the fork block's limit is compared with twice the parent's
+	}
+	var diff uint64
+	if ref > hLimit {
+		diff = ref - hLimit
+	} else {
+		diff = hLimit - ref
+	}
+	limitOK := diff < ref/1024 && hLimit >= 5000
+	var want *big.Int
+	if parentIsLondon {
+		want = zzSpecBaseFee(pBase, pLimit, pUsed, 2, 8)
+	} else {
+		want = big.NewInt(1000000000) // INITIAL_BASE_FEE
+	}
+	zzAssert((err == nil) == zzAll(limitOK, zzBigEq(hBase, want)), "header accepted iff gas limit within bounds and base fee as specified")
+	if err == nil && parentIsLondon {
+		zzReach("accepted")
+	} else if err == nil {
+		zzReach("accepted-fork-block")
+	} else {
+		zzReach("rejected")
+	}
+}
